@@ -33,8 +33,19 @@ oracle as a fresh object; DifferentialDisplacement objects are re-solved after o
 updated systems.  The judged calls and their oracles are the same as for a fresh object; queries must leave positions
 and cell bit-identical (wrap(): moved by whole cell vectors along periodic axes only).
 
-Tolerances: every comparison is absolute 1e-9 (lengths in Angstrom-scale units, tensors dimensionless, Nye in
-1/length) unless stated: positions are below ~150 in magnitude, so neighbour vectors carry <= 4e-14 absolute rounding,
+Length unit: every case carries a length unit S = 10**lscale, lscale = -12 .. 4 (S = 1 in a third to a half of the cases,
+S <= 1e-9 - the same crystal in metres, atomman's working units may be SI - in 15-25 %): the crystal is built with the numbers
+as drawn (lattice parameter 2.5-5.5) and then cell, origin and positions are multiplied by S, and so is every other
+length of the case (cutoffs, translations, slips, plane positions and offsets, p vectors, per-atom noise); relative
+quantities (F, cell shifts, slip in nearest-neighbour distances) are untouched.  None of the judged tools documents a
+unit or a tolerance argument, so every result must scale with S (lengths), 1 (G, strain, rotation, invariants, unit
+vectors) or 1/S (Nye tensor).  Established on the unchanged code: displacement, System.dvect, NeighborList, Strain,
+nye_tensor, slip_vector, DifferentialDisplacement are scale free over the whole range; disregistry is not (np.isclose with
+numpy's default absolute 1e-8 on plane coordinates: open finding KEY_DISREG_UNIT, keyed to crystals whose planes are 1e-8
+units or less apart; everything else of such a case is judged before the keyed violation is raised).
+
+Tolerances: every comparison is absolute 1e-9 in units of S (lengths: 1e-9 S, tensors dimensionless: 1e-9, Nye in
+1/length: 1e-9 / S) unless stated: positions are below ~150 S in magnitude, so neighbour vectors carry <= 4e-14 absolute rounding,
 the least-squares solves are only judged where the neighbour set has singular-value ratio >= 0.05 (condition <= 20),
 which bounds every result error by ~1e-11.  Common translations of up to 60 change roundings by 1e-14 relative
 to the same effect.  Neighbour decisions stay away from the cutoff by construction (cutoff inside a shell gap with a
@@ -56,7 +67,9 @@ RULE = ("reference crystals fcc / bcc / hcp (c/a 1.55-1.9 incl. ideal) / B2 / L1
         "displacement difference) per cell width, 30-900 atoms), optionally rigidly rotated, shifted origin, renumbered, "
         "under all 8 periodicity settings; cutoff anywhere inside one of the first three gaps between complete neighbour "
         "shells; deformation F = R(I+E), rotation <= 8 deg, |E|_2 <= 0.03, applied to atoms and cell, then translated and "
-        "re-wrapped into a shifted cell; rigid slip of the half above a plane between two atomic layers (any layer gap, "
+        "re-wrapped into a shifted cell; the whole case expressed in a length unit 10^k, k = -12..4 (k = 0 in >= a third, metres-like "
+        "k <= -9 in ~20 %: cell, origin, positions, cutoffs, translations, slips, plane positions, p vectors times 10^k, all tolerances "
+        "relative to it); rigid slip of the half above a plane between two atomic layers (any layer gap, "
         "any of the three cell faces, in-plane vector of any direction, |s| <= 0.4 nearest-neighbour distances, split "
         "between the halves, cut axis open or periodic); displacement clause also random per-atom vectors, translations by "
         "several cells and systems declaring different periodic axes.  Non-trivial: (F has both a rotation and a strain "
@@ -91,7 +104,8 @@ LEVEL_TEXT = ("Hand-built fcc/bcc/hcp/B2/L1_2 crystals in standard, re-oriented 
               "layer gap, cutoffs across the first three shell gaps, all reference routes of Strain (base system, per-atom / single / "
               "axes-transformed / first-shell-only p vectors, given neighbour lists) and both references of DifferentialDisplacement; "
               "all of it also after earlier use of the same System / Strain / DifferentialDisplacement objects (queries, stale "
-              "'neighbors' attributes, in-place updates through every public setter, re-solves) and of the same process.")
+              "'neighbors' attributes, in-place updates through every public setter, re-solves) and of the same process; "
+              "every case expressed in a length unit between 1e-12 and 1e4 (Angstrom-like numbers, nm, metres, large numbers).")
 TECHNIQUE = ("closed-form expectation from the imposed F / slip (G = F^-T, strain/rotation/invariants, zero Nye, n_across * relative "
              "displacement, u_j - u_i per listed pair), own neighbour enumeration, class-vs-function-vs-own-curl agreement on slipped "
              "crystals, metamorphic translation / renumbering")
@@ -102,6 +116,8 @@ KEY_READONLY = 'C17:Strain:p_vectors-single-list:read-only-broadcast'
 KEY_ONENBR = 'C17:Strain:atom-with-single-neighbour'
 KEY_NONCONTIG = 'C17:Strain:p_vectors-array:not-C-contiguous'
 KEY_ROASSIGN = 'C17:Strain:p_vectors-per-atom-array:read-only-assignment'
+KEY_DISREG_UNIT = 'C17:disregistry:absolute-isclose-tolerance:plane-spacing-below-1e-8-units'
+DISREG_MSG = 'planepos must fall between atomic planes'
 I3 = np.eye(3)
 MAXATOMS = 900
 
@@ -131,14 +147,30 @@ def _gaps(kind, a, ca, minratio, angle_rule):
     return tuple(gaps), radii[0]
 
 
+def unit_xtal(case, labels):
+    """the crystal description of the case with its length unit S = 10**lscale (xt['S']): every length the oracles
+    derive from it (lattice parameter, cell, origin, shell radii, cutoffs, nearest-neighbour distance, translations, plane
+    offsets) is multiplied by S, every length tolerance by S, every 1/length tolerance by 1/S.  The tools are scale free:
+    none of them documents a tolerance or a unit (established on the unchanged code, see known_findings for the one
+    exception, disregistry)"""
+    k = int(case.get('lscale') or 0)
+    S = float('1e%d' % k)
+    labels.add('unit_1' if k == 0 else ('unit_small' if k < 0 else 'unit_large'))
+    if k <= -9:
+        labels.add('unit_si')          # squared lengths below 1e-16: where absolute tolerances of 1e-8 .. 1e-12 would bite
+    return dict(case['xtal'], S=S), S
+
+
 def choose_cutoff(xt, sh, margin, minratio, angle_rule, maxgap=None):
+    """cutoff, nearest-neighbour distance and shell gaps in the length unit of the case"""
     gaps, dnn = _gaps(xt['kind'], xt['a'], xt['ca'] or 1.633, minratio, angle_rule)
+    S = xt.get('S', 1.0)
     if maxgap is not None:
         gaps = gaps[:maxgap]
     k = sh['gap'] % len(gaps)
     lo, hi = gaps[k][0] * (1 + margin), gaps[k][1] * (1 - margin)
     assert hi > lo
-    return lo + sh['frac'] * (hi - lo), dnn, k, gaps
+    return (lo + sh['frac'] * (hi - lo)) * S, dnn * S, k, tuple((g0 * S, g1 * S) for g0, g1 in gaps)
 
 
 class Ref:
@@ -147,9 +179,13 @@ class Ref:
 
 
 def build_ref(xt, need, need_axis=None):
-    """need: minimum perpendicular width of the supercell (periodic or not)"""
+    """need: minimum perpendicular width of the supercell (periodic or not), in the length unit of the case.  The
+    crystal is built with the numbers as drawn (System.rotate / supersize are judged by C04) and then expressed in the
+    unit of the case: positions, cell and origin times S"""
     import atomman as am
     kind, a = xt['kind'], xt['a']
+    S = xt.get('S', 1.0)
+    need = need / S
     ca = xt['ca'] or 1.633
     V, rel, types = DR.unit_cell(kind, a, ca)
     box = am.Box.hexagonal(a, a * ca) if kind == 'hcp' else am.Box.cubic(a)
@@ -179,10 +215,13 @@ def build_ref(xt, need, need_axis=None):
         pos, vects, origin = pos @ R.T, vects @ R.T, origin @ R.T
     shift = np.array(xt['origin'], dtype=float)
     pos, origin = pos + shift, origin + shift
+    if S != 1.0:
+        pos, vects, origin, V, a = pos * S, vects * S, origin * S, V * S, a * S
     perm = DR.permutation(len(pos), xt['perm'])
     pos, atype = pos[perm], atype[perm]
     r = Ref()
     r.kind, r.a, r.ca, r.pos, r.atype, r.vects, r.origin = kind, a, ca, pos, atype, vects, origin
+    r.S = S
     r.A = R @ T                    # crystal frame -> system frame
     r.uv, r.oi = uv, oi
     r.ucell = (V, rel)
@@ -241,7 +280,7 @@ def gradient(Fd):
 def deform(r, F, move, pbc):
     """affine image of the reference (atoms and cell), translated; cell then shifted against the atoms along periodic
     axes and the atoms wrapped back.  Returns pos1, vects1, origin1, u (imposed displacement F x + t - x), nshift"""
-    t = np.array(move['t'], dtype=float)
+    t = np.array(move['t'], dtype=float) * r.S
     pos1 = r.pos @ F.T + t
     vects1 = r.vects @ F.T
     origin1 = r.origin @ F.T + t
@@ -284,8 +323,34 @@ def slip_setup(r, sl, dnn):
     pbc = [False, False, False]
     pbc[i1], pbc[i2], pbc[cut] = bool(sl['inpbc'][0]), bool(sl['inpbc'][1]), bool(sl['cutpbc'])
     d = dict(cut=cut, nrm=nrm, x1=x1, x2=x2, mid=mid, upper=upper, lay=lay, g=g, nlayers=len(levels), s=s, u_up=u_up, u_low=u_low,
-             u=u, pbc=pbc, gap=float(levels[g + 1] - levels[g]))
+             u=u, pbc=pbc, gap=float(levels[g + 1] - levels[g]), mingap=float(np.diff(levels).min()))
     return d
+
+
+def disreg_blocked(sd, *positions):
+    """Input class of the open finding KEY_DISREG_UNIT: disregistry() groups the atoms of one plane with
+    np.isclose(y, y_plane) at numpy's default tolerances, |dy| <= 1e-8 + 1e-5 |y_plane|.  The relative part is far below
+    every plane spacing of the crystals used here (|y| <= ~150 length units, spacings >= 0.2); the absolute 1e-8 is a
+    length in working units that no docstring mentions: in a unit in which atomic planes are 1e-8 or less apart (metres)
+    neighbouring planes are taken as one plane"""
+    yb = max(amax(p @ sd['nrm']) for p in positions)
+    return bool(sd['mingap'] <= 1.05 * (1e-8 + 1e-5 * yb))
+
+
+class disreg_guard:
+    """inside the class of KEY_DISREG_UNIT every failure of disregistry (its ValueError, coordinates of more than two
+    planes, mixed displacements) is that finding; outside nothing is caught"""
+    def __init__(self, blocked, S):
+        self.blocked, self.S = blocked, S
+
+    def __enter__(self):
+        return self
+
+    def __exit__(self, et, e, tb):
+        if self.blocked and et is not None and ((et is ValueError and DISREG_MSG in str(e)) or (et is Violation and e.key is None)):
+            raise Violation('disregistry() on a crystal whose atomic planes are 1e-8 length units or less apart (length unit %g, '
+                            'e.g. metres): %s' % (self.S, str(e)[:300]), key=KEY_DISREG_UNIT) from None
+        return False
 
 
 def slipped(r, sd, sl):
@@ -474,9 +539,10 @@ def other_cutoff(xt, rc, k, x):
     """a cutoff inside any of the first three shell gaps of the crystal (not necessarily the judged one) and whether it
     selects other shells than rc"""
     gaps, _ = _gaps(xt['kind'], xt['a'], xt['ca'] or 1.633, 1.05, False)
+    S = xt.get('S', 1.0)
     lo, hi = gaps[k % len(gaps)]
-    c = lo * 1.01 + x * (hi * 0.99 - lo * 1.01)
-    same = any(g[0] < min(c, rc) and max(c, rc) < g[1] for g in gaps)
+    c = (lo * 1.01 + x * (hi * 0.99 - lo * 1.01)) * S
+    same = any(g[0] * S < min(c, rc) and max(c, rc) < g[1] * S for g in gaps)
     return c, not same
 
 
@@ -704,11 +770,11 @@ def amax(x):
 
 def oracle_displacement(case):
     import atomman as am
-    xt = case['xtal']
-    pbc = [bool(x) for x in case['pbc']]
-    rc, dnn, _, _ = choose_cutoff(xt, case['shells'], 0.01, 1.05, False)
     mode = case['mode']
     labels = {'mode_' + mode, 'boxref_' + case['boxref']}
+    xt, S = unit_xtal(case, labels)
+    pbc = [bool(x) for x in case['pbc']]
+    rc, dnn, _, _ = choose_cutoff(xt, case['shells'], 0.01, 1.05, False)
     r = build_ref(xt, 2.2 * (rc + 0.45 * dnn))
     if mode == 'slip':
         sd = slip_setup(r, case['slip'], dnn)
@@ -777,7 +843,7 @@ def oracle_displacement(case):
     require(got.shape == (r.natoms, 3) and np.all(np.isfinite(got)), lambda: 'displacement returned shape %r' % (got.shape,))
     raw = pos1 - r.pos
     scale = amax(r.pos) + amax(pos1) + amax(vects1)
-    tol = TOL + 64 * DR.EPS * scale
+    tol = TOL * S + 64 * DR.EPS * scale
     if pbc1 != pbc:
         labels.add('pbc_differ')
     if np.any(shift != 0):
@@ -847,7 +913,7 @@ def expected_from_G(Gx):
     return Gx, e, w, i1, i2, i3, av
 
 
-def _judge_class(N, Gg, res, dct, Gx, e, w, i1, i2, i3, av, good, goodnb, per):
+def _judge_class(N, Gg, res, dct, Gx, e, w, i1, i2, i3, av, good, goodnb, per, S=1.0):
     require(Gg.shape == (N, 3, 3), lambda: 'Strain.G has shape %r' % (Gg.shape,))
     errG = np.abs(Gg - Gx).reshape(N, -1).max(axis=1)
     bad = np.nonzero(good & ~(errG <= TOL))[0]
@@ -870,9 +936,9 @@ def _judge_class(N, Gg, res, dct, Gx, e, w, i1, i2, i3, av, good, goodnb, per):
     nye = res['nye']
     require(nye.shape == (N, 3, 3), lambda: 'Strain.nye has shape %r' % (nye.shape,))
     errN = np.abs(nye).reshape(N, -1).max(axis=1)
-    bad = np.nonzero(goodnb & ~(errN <= TOL))[0]
-    require(len(bad) == 0, lambda: 'Nye tensor of atom %d under a homogeneous deformation is %.3g (should vanish):\n%r'
-            % (bad[0], errN[bad[0]], nye[bad[0]]))
+    bad = np.nonzero(goodnb & ~(errN <= TOL / S))[0]          # 1/length
+    require(len(bad) == 0, lambda: 'Nye tensor of atom %d under a homogeneous deformation is %.3g (should vanish; length unit %g):\n%r'
+            % (bad[0], errN[bad[0]], S, nye[bad[0]]))
     for k in ('strain', 'invariant1', 'invariant2', 'invariant3', 'angularvelocity', 'nye'):
         require(k in dct and np.array_equal(np.asarray(dct[k]), res[k], equal_nan=True),
                 lambda: 'Strain.asdict()[%r] differs from the property of that name' % k)
@@ -880,7 +946,8 @@ def _judge_class(N, Gg, res, dct, Gx, e, w, i1, i2, i3, av, good, goodnb, per):
 
 def oracle_strain(case):
     import atomman as am
-    xt = case['xtal']
+    unit_labels = set()
+    xt, S = unit_xtal(case, unit_labels)
     refmode = case['refmode']
     pbc = [bool(x) for x in case['pbc']]
     if refmode == 'subset':
@@ -901,7 +968,7 @@ def oracle_strain(case):
         FA, _, _ = gradient(shist['F0'])
         dF = max(dF, np.linalg.norm(FA - I3, 2))
     r = build_ref(xt, 2.2 * 1.04 * (rc * (1 + dF) + 0.05 * dnn))
-    labels = xtal_labels(r) | {'ref_' + refmode, 'nbr_' + case['nbrmode'], 'gap%d' % kgap}
+    labels = xtal_labels(r) | {'ref_' + refmode, 'nbr_' + case['nbrmode'], 'gap%d' % kgap} | unit_labels
     pos1, vects1, origin1, u, shift = deform(r, F, case['move'], pbc)
     s0, kept0, _ = make_reference(am, hist, r, pbc, xt, rc, labels, True)
     if not kept0:
@@ -911,7 +978,7 @@ def oracle_strain(case):
     I0, J0, D0, L0 = pair_table(r.pos, r.vects, pbc, rc)
     I1, J1, D1, L1 = pair_table(pos1, vects1, pbc, rc)
     assert len(I0) == len(I1) and np.array_equal(I0, I1) and np.array_equal(J0, J1), 'generator: shells not complete in both systems'
-    assert amax(D1 - D0 @ F.T) <= 1e-9 * (1 + amax(pos1)), 'generator: deformed neighbour vectors are not F d0'
+    assert amax(D1 - D0 @ F.T) <= 1e-9 * (S + amax(pos1)), 'generator: deformed neighbour vectors are not F d0'
     per = group_by_atom(N, I0, J0, D0)
     good = np.array([rank_ok(v) for _, v in per])
     if not good.any():
@@ -1087,7 +1154,7 @@ def oracle_strain(case):
                     with strain_guard(single_list and wrap_axes is None, few):
                         stage0(pre['st'][0], np.linalg.inv(FA).T, keptA and not noisy)
                         if noisy and not few:
-                            require(amax(pre['st'][0].nye) > 1e-7, 'Nye tensor of a crystal with per-atom noise is zero')
+                            require(amax(pre['st'][0].nye) > 1e-7 / S, 'Nye tensor of a crystal with per-atom noise is zero')
                     if case.get('ddlazy', 0) == 5:
                         pre['dd'] = am.defect.DifferentialDisplacement(s0, sA, cutoff=rc, reference=case['ddref'])
             # the periodicity stays: the lists made in the earlier state are the lists of the judged state only then
@@ -1185,7 +1252,7 @@ def oracle_strain(case):
                 Gg = res['G']
                 dct = st.asdict()
     if pending is None:
-        _judge_class(N, Gg, res, dct, Gx, e, w, i1, i2, i3, av, good, goodnb, per)
+        _judge_class(N, Gg, res, dct, Gx, e, w, i1, i2, i3, av, good, goodnb, per, S)
         if case.get('order', 0) % 3 == 0:
             st.save_to_system()
             for k in ('strain', 'invariant1', 'invariant2', 'invariant3', 'angularvelocity', 'nye'):
@@ -1218,7 +1285,7 @@ def oracle_strain(case):
             require(key in out, lambda: 'nye_tensor() result lacks %r' % key)
             got = np.asarray(out[key])
             err = np.abs(got - exp).reshape(N, -1).max(axis=1)
-            bad = np.nonzero(msk & ~(err <= TOL))[0]
+            bad = np.nonzero(msk & ~(err <= (TOL / S if key == 'Nye_tensor' else TOL)))[0]
             require(len(bad) == 0, lambda: 'nye_tensor()[%r] of atom %d differs from the expectation by %.3g: %r vs %r'
                     % (key, bad[0], err[bad[0]], got[bad[0]], exp))
         labels.add('wrapper')
@@ -1240,7 +1307,7 @@ def oracle_strain(case):
     expdd = D0[idx] @ (F - I3).T
     err = np.abs(ddv - expdd).max(axis=1)
     k = int(np.argmax(err))
-    require(err[k] <= TOL + 64 * DR.EPS * (amax(pos1) + amax(r.pos)),
+    require(err[k] <= TOL * S + 64 * DR.EPS * (amax(pos1) + amax(r.pos)),
             lambda: 'ddvector of pair (%d,%d) is %r, (F-I).d0 = %r (reference=%d)' % (Il[k], Jl[k], ddv[k].tolist(), expdd[k].tolist(), case['ddref']))
     if np.any(shift != 0):
         labels.add('rewrapped')
@@ -1284,7 +1351,7 @@ def _dd_check(am, what, s0, s1, r, pos1, pbc, rc, u, reference, nbrmode, labels,
     require(ddv.shape == (len(Il), 3), lambda: '%s: ddvectors has shape %r for %d listed pairs' % (what, ddv.shape, len(Il)))
     expdd = u[Jl] - u[Il]
     err = np.abs(ddv - expdd).max(axis=1) if len(Il) else np.zeros(0)
-    tol = TOL + 64 * DR.EPS * (amax(pos1) + amax(r.pos))
+    tol = TOL * r.S + 64 * DR.EPS * (amax(pos1) + amax(r.pos))
     if len(err):
         k = int(np.argmax(err))
         require(err[k] <= tol, lambda: '%s: ddvector of pair (%d,%d) is %r, u_j - u_i = %r' % (what, Il[k], Jl[k], ddv[k].tolist(), expdd[k].tolist()))
@@ -1312,7 +1379,7 @@ def _disreg_check(am, what, s0, s1, r, sd, m_angle, n_flip, ofs, pos0=None, asli
     a = math.radians(m_angle)
     m = math.cos(a) * x1 + math.sin(a) * x2
     n = -nrm if n_flip else nrm
-    planepos = r.origin + sd['mid'] * nrm + ofs[0] * x1 + ofs[1] * x2
+    planepos = r.origin + sd['mid'] * nrm + (ofs[0] * r.S) * x1 + (ofs[1] * r.S) * x2
     if aslists:
         coord, dr = am.defect.disregistry(s0, s1, m=m.tolist(), n=tuple(n.tolist()), planepos=planepos.tolist())
     else:
@@ -1321,7 +1388,7 @@ def _disreg_check(am, what, s0, s1, r, sd, m_angle, n_flip, ofs, pos0=None, asli
     require(coord.ndim == 1 and dr.shape == (len(coord), 3), lambda: '%s: shapes %r %r' % (what, coord.shape, dr.shape))
     adj = (sd['lay'] == sd['g']) | (sd['lay'] == sd['g'] + 1)
     mine = np.sort((r.pos if pos0 is None else pos0)[adj] @ m)
-    tolc = 1e-8 * (1 + amax(mine))
+    tolc = 1e-8 * (r.S + amax(mine))
     # same set of coordinates (the tool may list a coordinate twice when two atoms differ in the last bits)
     d1 = np.abs(coord[:, None] - mine[None, :])
     require(len(coord) and d1.min(axis=1).max() <= tolc and d1.min(axis=0).max() <= tolc,
@@ -1331,7 +1398,7 @@ def _disreg_check(am, what, s0, s1, r, sd, m_angle, n_flip, ofs, pos0=None, asli
     exp = (sd['u_low'] - sd['u_up']) if n_flip else (sd['u_up'] - sd['u_low'])
     err = np.abs(dr - exp).max(axis=1)
     k = int(np.argmax(err))
-    require(err[k] <= TOL + 64 * DR.EPS * amax(r.pos),
+    require(err[k] <= TOL * r.S + 64 * DR.EPS * amax(r.pos),
             lambda: '%s: disregistry at coordinate %.6g is %r; displacement of the half on the +n side minus the other half is %r'
             % (what, coord[k], dr[k].tolist(), exp.tolist()))
     return coord, dr
@@ -1339,12 +1406,14 @@ def _disreg_check(am, what, s0, s1, r, sd, m_angle, n_flip, ofs, pos0=None, asli
 
 def oracle_slip(case):
     import atomman as am
-    xt, sl = case['xtal'], case['slip']
+    sl = case['slip']
+    unit_labels = set()
+    xt, S = unit_xtal(case, unit_labels)
     rc, dnn, kgap, _ = choose_cutoff(xt, case['shells'], 0.01, 1.05, False)
     r = build_ref(xt, 2.2 * (rc + 0.45 * dnn))
     sd = slip_setup(r, sl, dnn)
     pbc = sd['pbc']
-    labels = xtal_labels(r) | {'gap%d' % kgap, 'cut%d' % sd['cut']}
+    labels = xtal_labels(r) | {'gap%d' % kgap, 'cut%d' % sd['cut']} | unit_labels
     pos1, origin1, shift = slipped(r, sd, sl)
     hist = case.get('hist') or NOHIST
     forms = hist['forms']
@@ -1398,7 +1467,7 @@ def oracle_slip(case):
     sv = np.asarray(call_sv())
     labels.add('sv_' + case['svnbr'])
     require(sv.shape == (N, 3), lambda: 'slip_vector returned shape %r' % (sv.shape,))
-    tol = TOL + 64 * DR.EPS * (amax(pos1) + amax(r.pos)) * max(1, nacross.max())
+    tol = TOL * S + 64 * DR.EPS * (amax(pos1) + amax(r.pos)) * max(1, nacross.max())
     err = np.abs(sv - exp_sv).max(axis=1)
     k = int(np.argmax(err))
     require(err[k] <= tol, lambda: 'slip vector of atom %d (%s half, %d neighbours across the plane) is %r, expected %d x %r'
@@ -1408,8 +1477,18 @@ def oracle_slip(case):
     if nacross[upper].any() and nacross[~upper].any():
         labels.add('both_halves_judged')
     # ---- disregistry
+    # (a failure inside the input class of the open finding KEY_DISREG_UNIT is kept and raised at the end, so that it
+    # does not hide the differential displacements and the Nye tensor of the same case)
     what_dr = 'disregistry'
-    cd, dr = _disreg_check(am, what_dr, s0, s1, r, sd, case['m_angle'], case['n_flip'], case['plane_ofs'], pos0, bool(forms & 2))
+    pending = None
+    blocked = disreg_blocked(sd, pos0)
+    try:
+        with disreg_guard(blocked, S):
+            cd, dr = _disreg_check(am, what_dr, s0, s1, r, sd, case['m_angle'], case['n_flip'], case['plane_ofs'], pos0, bool(forms & 2))
+    except Violation as v:
+        if v.key != KEY_DISREG_UNIT:
+            raise
+        pending = v
     # ---- differential displacement
     if hist['decoy']:
         run_decoy(am)
@@ -1425,8 +1504,9 @@ def oracle_slip(case):
         # the same calls once more in the same process, after everything else ran on the same objects
         sv2 = np.asarray(call_sv())
         require(np.array_equal(sv2, sv), 'slip_vector() of the same two systems differs between two calls')
-        cd2, dr2 = _disreg_check(am, what_dr + ' (second call)', s0, s1, r, sd, case['m_angle'], case['n_flip'], case['plane_ofs'], pos0, False)
-        require(np.array_equal(cd2, cd) and np.array_equal(dr2, dr), 'disregistry() of the same two systems differs between two calls')
+        if pending is None:
+            cd2, dr2 = _disreg_check(am, what_dr + ' (second call)', s0, s1, r, sd, case['m_angle'], case['n_flip'], case['plane_ofs'], pos0, False)
+            require(np.array_equal(cd2, cd) and np.array_equal(dr2, dr), 'disregistry() of the same two systems differs between two calls')
         labels.add('repeat')
     # ---- Nye tensor on a non-uniform G: class, function and -curl G must agree
     if case['nye']:
@@ -1444,7 +1524,7 @@ def oracle_slip(case):
                 out = None          # the function form needs at least one reference vector per atom
             else:
                 out = am.defect.nye_tensor(s1, [np.array(x, dtype=float).reshape(-1, 3) for x in st.p_vectors], cutoff=rc, **kw)
-        sc = max(1.0, amax(nyeC))
+        sc = max(1.0 / S, amax(nyeC))          # 1/length
         # class and function may only be compared where the matching is not decided by a tie (see match_stable)
         if out is not None:
             band = 1e-7 * rc
@@ -1463,7 +1543,7 @@ def oracle_slip(case):
             err[~stab_nb] = 0.0
             k = int(np.argmax(err))
             require(err[k] <= 1e-8 * sc, lambda: 'Nye tensor of atom %d: Strain.nye =\n%r\nnye_tensor() =\n%r' % (k, nyeC[k], nyeF[k]))
-            if stab_nb.any() and amax(nyeC[stab_nb]) > 1e-4:
+            if stab_nb.any() and amax(nyeC[stab_nb]) > 1e-4 / S:
                 labels.add('nye_class_vs_function')
         nl = st.neighbors
         njudged = 0
@@ -1480,7 +1560,7 @@ def oracle_slip(case):
             njudged += 1
             require(e <= 1e-8 * sc * 20, lambda: 'Nye tensor of atom %d: Strain.nye =\n%r\n-curl G from its own G and neighbours =\n%r' % (i, nyeC[i], mine))
             worst = max(worst, amax(mine))
-        if njudged and worst > 1e-4:
+        if njudged and worst > 1e-4 / S:
             labels.add('nye_nonuniform')
     ang = sl['angle'] % 90.0
     generic = sl['mag'] > 0 and min(ang, 90.0 - ang) > 0.5
@@ -1496,12 +1576,14 @@ def oracle_slip(case):
         labels.add('rewrapped')
     if 0.0 < sl['split'] < 1.0:
         labels.add('both_halves_move')
+    if pending is not None:
+        raise pending
     return labels
 
 
 # ----------------------------------------------------------------------------- invariance
 
-def _outputs(am, s0, s1, rc, theta, ddref, slipinfo, few):
+def _outputs(am, s0, s1, rc, theta, ddref, slipinfo, few, blocked=False, S=1.0):
     """everything the property lists, computed by atomman on one pair of systems"""
     kw = {} if theta is None else {'theta_max': theta}
     out = {}
@@ -1521,16 +1603,23 @@ def _outputs(am, s0, s1, rc, theta, ddref, slipinfo, few):
         if slipinfo is not None:
             out['slip'] = np.array(am.defect.slip_vector(s0, s1, cutoff=rc))
             m, n, pp = slipinfo
-            c, d = am.defect.disregistry(s0, s1, m=m, n=n, planepos=pp)
-            out['disreg'] = (np.array(c), np.array(d))
+            try:
+                with disreg_guard(blocked, S):
+                    c, d = am.defect.disregistry(s0, s1, m=m, n=n, planepos=pp)
+                out['disreg'] = (np.array(c), np.array(d))
+            except Violation as v:
+                if v.key != KEY_DISREG_UNIT:
+                    raise
+                out['disreg'] = None
+                out['pending'] = v
     return out
 
 
 def oracle_invariance(case):
     import atomman as am
-    xt = case['xtal']
     cfg = case['config']
     labels = {'cfg_' + cfg}
+    xt, S = unit_xtal(case, labels)
     if cfg == 'F':
         pbc = [bool(x) for x in case['pbc']]
         rc, dnn, kgap, _ = choose_cutoff(xt, case['shells'], 0.045, 1.12, True)
@@ -1550,7 +1639,7 @@ def oracle_invariance(case):
         a = math.radians(case['m_angle'])
         m = math.cos(a) * sd['x1'] + math.sin(a) * sd['x2']
         n = -sd['nrm'] if case['n_flip'] else sd['nrm']
-        pp = r.origin + sd['mid'] * sd['nrm'] + case['plane_ofs'][0] * sd['x1'] + case['plane_ofs'][1] * sd['x2']
+        pp = r.origin + sd['mid'] * sd['nrm'] + (case['plane_ofs'][0] * S) * sd['x1'] + (case['plane_ofs'][1] * S) * sd['x2']
         slipinfo = (m, n, pp)
         Fmap = I3
     labels |= xtal_labels(r)
@@ -1568,7 +1657,7 @@ def oracle_invariance(case):
     # only in-plane, so that the two planes adjoining the slip plane stay the same atoms); 'both': cells move by one
     # vector, atoms by another, then wrapped
     perm = DR.permutation(N, case['perm2'])
-    t_o = np.array(case['t2'], dtype=float)
+    t_o = np.array(case['t2'], dtype=float) * S
     w = np.array(case['w2'], dtype=float)
     wmask = np.array(pbc, dtype=float)
     if cfg == 'slip':
@@ -1610,10 +1699,12 @@ def oracle_invariance(case):
         stable, stable_nb = stable_atoms(N, per, group_by_atom(N, Ib, Jb, Db), case['theta'], band_hit)
     Ic, _, _, _ = pair_table(pos1, vects1, pbc, rc)
     few = bool(np.any(np.bincount(I0, minlength=N) < 2) or np.any(np.bincount(Ic, minlength=N) < 2))
-    A = _outputs(am, s0, s1, rc, case['theta'], case['ddref'], slipinfo, few)
-    B = _outputs(am, s0b, s1b, rc, case['theta'], case['ddref'], slipinfo_b, few)
+    blocked = slipinfo is not None and disreg_blocked(sd, r.pos, p0)
+    A = _outputs(am, s0, s1, rc, case['theta'], case['ddref'], slipinfo, few, blocked, S)
+    B = _outputs(am, s0b, s1b, rc, case['theta'], case['ddref'], slipinfo_b, few, blocked, S)
     scale = amax(p0) + amax(p1) + amax(r.pos) + amax(pos1)
-    tol = 1e-8 + 256 * DR.EPS * scale
+    tol = 1e-8 * S + 256 * DR.EPS * scale                 # lengths
+    tolD = tol / S                                        # dimensionless tensors; Nye (1/length): tolD / S
     what = 'after renumbering and translating both systems (%s)' % tm
     allat = np.ones(N, dtype=bool)
     # displacement() / disregistry() compare the 27 images within one cell of pos1 - pos0 (C02): only atoms whose two
@@ -1636,11 +1727,16 @@ def oracle_invariance(case):
     for key, msk in keys:
         a, b = A[key], B[key]
         require(a.shape == b.shape, lambda: '%s: %s changed shape %r -> %r' % (what, key, a.shape, b.shape))
-        sc = max(1.0, amax(a[msk])) if (key == 'nye' and msk.any()) else 1.0
+        if key in ('slip', 'disp'):
+            tk = tol
+        elif key == 'nye':
+            tk = tolD * (max(1.0 / S, amax(a[msk])) if msk.any() else 1.0 / S)
+        else:
+            tk = tolD
         err = np.abs(b - a[perm]).reshape(N, -1).max(axis=1)
         err[~msk[perm]] = 0.0
         k = int(np.argmax(err))
-        require(err[k] <= tol * sc, lambda: '%s: %s of atom %d (was atom %d) changed by %.3g:\n%r\n->\n%r'
+        require(err[k] <= tk, lambda: '%s: %s of atom %d (was atom %d) changed by %.3g:\n%r\n->\n%r'
                 % (what, key, k, perm[k], err[k], a[perm[k]], b[k]))
     if stable.any():
         labels.add('strain_compared')
@@ -1659,7 +1755,8 @@ def oracle_invariance(case):
         require(err[k] <= tol, lambda: '%s: ddvector of pair %r changed: %r -> %r' % (what, divmod(int(ka[oa][k]), N), da[oa][k].tolist(), db[ob][k].tolist()))
     if slipinfo is not None and not near.all():
         labels.add('disreg_not_compared')
-    if slipinfo is not None and near.all():
+    pending = A.get('pending') or B.get('pending')
+    if slipinfo is not None and near.all() and pending is None:
         ca, dra = A['disreg']
         cb, drb = B['disreg']
         if tm == 'origin':
@@ -1685,6 +1782,8 @@ def oracle_invariance(case):
         labels.add('rewrapped')
     if case['perm2'] and (amax(t_at0) > 0 or amax(t_cell) > 0):
         labels.add('nt')
+    if pending is not None:
+        raise pending
     return labels
 
 
@@ -1692,7 +1791,8 @@ CLAUSES = [
     Clause('displacement', oracle_displacement, G17.displacement_cases, quick=1200, thorough=20000,
            min_share={'nt': 0.3, 'rewrapped': 0.4, 'direct': 0.25, 'box_differs': 0.08, 'searched': 0.05,
                       'queried0': 0.35, 'queried1': 0.35, 'q_other_shells': 0.13, 'inplace_built': 0.22, 'ref_inplace_built': 0.12,
-                      'cur_inplace_built': 0.16, 'decoy': 0.15, 'repeat': 0.18, 'int_pos': 0.015},
+                      'cur_inplace_built': 0.16, 'decoy': 0.15, 'repeat': 0.18, 'int_pos': 0.015,
+                      'unit_1': 0.14, 'unit_small': 0.14, 'unit_si': 0.07, 'unit_large': 0.03},
            desc='displacement() = imposed displacement through the periodic boundaries (homogeneous F with deformed cell, rigid slip, '
                 'random per-atom vectors up to 0.45 cell widths, translations by several cells), every box_reference setting, on '
                 'System objects that were queried before and / or brought to their state in place'),
@@ -1701,7 +1801,8 @@ CLAUSES = [
                       'nbr_neighbors': 0.1, 'twotype': 0.15, 'theta_given': 0.15,
                       'queried0': 0.35, 'queried1': 0.35, 'q_other_shells': 0.25, 'am_wrapped': 0.07, 'strain_resolved': 0.2,
                       'sh_inplace': 0.1, 'sh_pvec': 0.06, 'rs_solve': 0.1, 'derived_read_before': 0.2, 'derived_read_first': 0.4,
-                      'stage0_judged': 0.17, 'dd_resolved': 0.22, 'nbr_attr': 0.1},
+                      'stage0_judged': 0.17, 'dd_resolved': 0.22, 'nbr_attr': 0.1,
+                      'unit_1': 0.14, 'unit_small': 0.14, 'unit_si': 0.07, 'unit_large': 0.03},
            desc='homogeneous F: Strain.G = F^-T at every atom with a 3-D neighbour set, strain/rotation/invariants/angular velocity, '
                 'zero Nye tensor, asdict, save_to_system, nye_tensor() function, (F-I).d0 differential displacements; for fresh '
                 'objects and for Strain / DifferentialDisplacement objects in their second state (solved, read, changed, solved again)'),
@@ -1710,13 +1811,18 @@ CLAUSES = [
                       'inplane_open': 0.1, 'ddref1': 0.15, 'both_halves_move': 0.2,
                       'queried0': 0.33, 'queried1': 0.33, 'q_other_shells': 0.22, 'q_r0': 0.07, 'inplace_built': 0.22,
                       'ref_inplace_built': 0.12, 'cur_inplace_built': 0.15, 'decoy': 0.15, 'repeat': 0.18, 'dd_resolved': 0.18,
-                      'sv_attr': 0.07, 'int_pos': 0.015},
+                      'sv_attr': 0.07, 'int_pos': 0.015,
+                      # (no guard on 'unit_si' here and below: on the unchanged code those cases end in the open finding
+                      # KEY_DISREG_UNIT - after slip vector, differential displacements and Nye tensor were judged - and
+                      # cases excluded by an open finding carry no labels)
+                      'unit_1': 0.14, 'unit_small': 0.12, 'unit_large': 0.03},
            desc='rigid slip: slip_vector = n_across x relative displacement of the own half, disregistry = slip at every coordinate, '
                 'ddvectors = u_j - u_i per listed pair (both references), Nye tensor of class / function / own curl agree; on System '
                 'objects with earlier neighbour-list queries / stale neighbors attributes / in-place construction, repeated calls'),
     Clause('invariance', oracle_invariance, G17.invariance_cases, quick=560, thorough=8000,
            min_share={'nt': 0.25, 'cfg_slip': 0.2, 'cfg_F': 0.2, 'nye_compared': 0.5, 'rewrapped': 0.2,
-                      'queried0': 0.3, 'queried1': 0.29, 'q_other_shells': 0.23, 'decoy': 0.16},
+                      'queried0': 0.3, 'queried1': 0.29, 'q_other_shells': 0.23, 'decoy': 0.16,
+                      'unit_1': 0.14, 'unit_small': 0.14, 'unit_large': 0.03},
            desc='all results unchanged (per-atom arrays permuted, pair list mapped) under a common translation with or without '
                 're-wrapping and a consistent renumbering; the first pair of objects has been used before, the second is fresh'),
 ]
